@@ -429,7 +429,7 @@ class Wire(object):
         if isinstance(r, str):
             return "%s: %s\n" % (name, v)
         if r.kind == 'enum':
-            return "%s: %s\n" % (name, [x[0] for x in r.members if x[1] == v][0])
+            return "%s: %s\n" % (name, [x[0] for x in r.members if x[1] == v][-1])
         inner = self.render(r.name, v)
         ind = "\n".join(("  " + x) if x else '' for x in inner.split("\n"))
         return "%s {\n%s}\n" % (name, ind)
